@@ -24,3 +24,11 @@ def implies(a, b):
 
 def iff(a, b):
     return bool(a) == bool(b)
+
+
+def div(a, b):
+    return a // b
+
+
+def mod(a, b):
+    return a % b
